@@ -17,10 +17,11 @@ def run(ctx):
     to = 600 if q else 3000
     conds = []
     for fn in ("h_int", "h_float", "h_quantity"):
+        na_fn = 2 if fn == "h_float" else na       # the float parameter is the expensive one: 2 attempts in both tiers
         for ro in ((0, 1) if fn == "h_float" else (-1,)):
             tag = "" if ro < 0 else f"/read_only={bool(ro)}"
-            conds.append(Cond(f"{fn[2:]}/bounded/attempts={na}{tag}", "c18", fn, {"VF_NA": na, "VF_UNBOUNDED": 0, "VF_FIXRO": ro}, to))
-            conds.append(Cond(f"{fn[2:]}/default-infinite-bounds/attempts={na}{tag}", "c18", fn, {"VF_NA": na, "VF_UNBOUNDED": 1, "VF_FIXRO": ro}, to))
+            conds.append(Cond(f"{fn[2:]}/bounded/attempts={na_fn}{tag}", "c18", fn, {"VF_NA": na_fn, "VF_UNBOUNDED": 0, "VF_FIXRO": ro}, to))
+            conds.append(Cond(f"{fn[2:]}/default-infinite-bounds/attempts={na_fn}{tag}", "c18", fn, {"VF_NA": na_fn, "VF_UNBOUNDED": 1, "VF_FIXRO": ro}, to))
     conds.append(Cond(f"str+bool/attempts={na}", "c18", "h_str_bool", {"VF_NA": na}, to))
     conds.append(Cond(f"selection-list+unit/attempts={na}", "c18", "h_selection", {"VF_NA": na}, to))
     nadd = 3 if q else 4
